@@ -244,12 +244,12 @@ func c12(c *ctx) {
 	for _, pn := range names {
 		msg := pcs[pn]
 		for _, level := range []int{-2, 0, 1, 6, 9} {
-			for pat := 0; pat < 5; pat++ {
-				if !c.thorough && len(msg) > 50000 && pat > 1 && level != 9 {
+			for pat := 0; pat < 8; pat++ {
+				if !c.thorough && len(msg) > 50000 && pat > 1 && pat < 5 && level != 9 {
 					continue
 				}
 				key := fmt.Sprintf("deflate/%s/%d/%d", pn, level, pat)
-				if !vh.Only(key) {
+				if !vh.OnlyGroup(key) {
 					continue
 				}
 				dest := &bytes.Buffer{}
@@ -275,10 +275,20 @@ func c12(c *ctx) {
 					emit(map[string]interface{}{"k": "deflate", "key": key + "/" + label, "wire": wf, "msg": mf, "err": kind, "inflateOK": false,
 						"selfReadOK": rerr2 == nil && bytes.Equal(back, msg[:sofar]), "flushes": flushes}, fmt.Sprintf("deflate/%s/%d/%d/%s", pn, level, pat, label))
 				}
+				// patterns 5..7 end the message with Close() alone, as example/autobahn does (compress/flate's
+				// Close ends with the empty final stored block 01 00 00 ff ff, so the tail rule holds)
+				closeOnly := pat >= 5
+				if pat == 7 { // a reused writer: an earlier message, Reset, then this one
+					w.Write([]byte("an earlier message"))
+					w.Flush()
+					w.Close()
+					dest.Reset()
+					w.Reset(dest)
+				}
 				switch pat {
-				case 0:
+				case 0, 5, 7:
 					step(len(msg))
-				case 1:
+				case 1, 6:
 					for sofar < len(msg) {
 						k := 1 + rng.Intn(1+len(msg)/7)
 						if sofar+k > len(msg) {
@@ -314,11 +324,13 @@ func c12(c *ctx) {
 						step(kk)
 					}
 				}
-				if err == nil {
-					err = w.Flush()
-					flushes++
+				if !closeOnly {
+					if err == nil {
+						err = w.Flush()
+						flushes++
+					}
+					check("flush")
 				}
-				check("flush")
 				if err == nil {
 					err = w.Close()
 				}
